@@ -50,6 +50,11 @@ fn drivers(spec: &Spec, max_period: usize) -> Vec<Box<dyn Fn(usize) -> f64 + Sen
         if pos { 1.0 + k * 0.01 + saw } else { (k * 0.01 + saw) * if (i / 7) % 2 == 0 { 1.0 } else { -1.0 } }
     }));
     v.push(Box::new(move |i| if pos { 1.0 + ((i * i) % 11) as f64 } else { ((i * i) % 11) as f64 - 5.0 }));
+    // a widening oscillation: every value is a new extreme on its side
+    v.push(Box::new(move |i| {
+        let a = 1.0 + 0.001 * i as f64;
+        if pos { if i % 2 == 0 { a } else { 1.0 / a } } else if i % 2 == 0 { a } else { -a }
+    }));
     v
 }
 
